@@ -1,46 +1,1602 @@
-//! probe (temporary)
-use rules::fixture::*;
+//! Property check C08 — ingress is content-addressed, idempotent and order-free.
+//!
+//! Three enumerations, all on the real code:
+//!
+//! 1. `identity`: over kinds × byte strings × causal-parent sequences (every ordering / duplication
+//!    of ≤3 parents) × target forms: `ingress_id` equal ⇔ (kind, bytes, canonical parent set) equal.
+//! 2. `inbox`: explicit-state BFS over the real `HeadInbox` (ops: ingest, admit, set_policy — the only
+//!    place a policy *change* is reachable: `WorldlineRuntime` has no public policy setter) against a
+//!    reference model, with all permutations of every ≤3-subset of envelopes compared in every state.
+//! 3. `runtime`: explicit-state BFS over the real `WorldlineRuntime` + `ProvenanceService` (cloned as
+//!    state, fresh `Engine` per pass) for a list of configurations (worldlines, per-head inbox policy
+//!    fixed at `WriterHead` construction, routing of the 4 intents), ops = ingest(intent, form) / pass /
+//!    poison (a failing program on another head, forcing a rolled-back pass).  Every transition is
+//!    compared with a reference model (`Model`: per-head pending / committed sets, budgets, kind
+//!    filter, quarantine).  In EVERY visited state, for every multiset X of submissions (bounded
+//!    size, retry multiplicity ≤2, retries using the other target form) ALL distinct permutations of
+//!    X are applied from the state; the end states must be equal on the full fingerprint minus the
+//!    two arrival-order artefacts, and the following pass must produce equal StepRecords, provenance
+//!    entries (receipts, patches) and end states.
+
+use std::collections::{BTreeMap, BTreeSet, HashMap};
+use std::sync::Mutex;
+
+use mc::{json, Level, Report, Value};
+use rayon::prelude::*;
+use rtkit::*;
 use rules::{Program, Step};
-use std::time::Instant;
-use warp_core::*;
+use warp_core::{
+    CausalTickReceiptRef, GlobalTick, Hash, HeadInbox, InboxAddress, InboxIngestResult, InboxPolicy,
+    IngressCausalParent, IngressDisposition, IngressEnvelope, IngressPayload, IngressTarget,
+    IntentKind, ProvenanceStore, RuntimeError, SchedulerFaultScope, SchedulerKind, WorldlineTick,
+    WriterHeadKey,
+};
+
+// ---------------------------------------------------------------------------------------------
+// Alphabet
+// ---------------------------------------------------------------------------------------------
+
+/// The 4 intents: two kinds, programs writing distinct slots (a0 and b1 conflict on n1's
+/// attachment, so a batch holding both has a lawful loser).
+fn intent(i: usize) -> (IntentKind, Program) {
+    match i {
+        0 => (prog_kind(), Program::new(vec![Step::SetNodeAtt { n: 1, v: 1 }])),
+        1 => (prog_kind(), Program::new(vec![Step::SetNodeAtt { n: 2, v: 2 }])),
+        2 => (other_kind(), Program::new(vec![Step::SetEdgeAtt { e: 0, v: 3 }])),
+        _ => (other_kind(), Program::new(vec![Step::SetNodeAtt { n: 1, v: 5 }])),
+    }
+}
+const INTENT_NAMES: [&str; 4] = ["a0", "a1", "b0", "b1"];
+
+/// The failing program: deletes n1, which has the incident edge e0 (typed `EngineError`).
+fn poison_program() -> Program {
+    Program::new(vec![Step::DeleteNodeUnchecked { n: 1 }, Step::ReadNode { n: 2 }])
+}
+
+#[derive(Clone, Copy, Debug, PartialEq, Eq, PartialOrd, Ord, Hash)]
+enum Pol {
+    AcceptAll,
+    /// KindFilter { prog_kind } — rejects b0, b1
+    KindFilter,
+    Budgeted(u32),
+}
+impl Pol {
+    fn real(self) -> InboxPolicy {
+        match self {
+            Pol::AcceptAll => InboxPolicy::AcceptAll,
+            Pol::KindFilter => InboxPolicy::KindFilter([prog_kind()].into_iter().collect()),
+            Pol::Budgeted(n) => InboxPolicy::Budgeted { max_per_tick: n },
+        }
+    }
+    fn accepts(self, kind: IntentKind) -> bool {
+        match self {
+            Pol::KindFilter => kind == prog_kind(),
+            _ => true,
+        }
+    }
+    fn budget(self) -> usize {
+        match self {
+            Pol::Budgeted(n) => n as usize,
+            _ => usize::MAX,
+        }
+    }
+}
+const POLICIES: [Pol; 5] = [
+    Pol::AcceptAll,
+    Pol::KindFilter,
+    Pol::Budgeted(0),
+    Pol::Budgeted(1),
+    Pol::Budgeted(2),
+];
+
+/// A submission symbol: intent index (4 = poison) and target form (0 = public form: DefaultWriter for
+/// h0 / InboxAddress "named" for h1; 1 = ExactHead).
+#[derive(Clone, Copy, Debug, PartialEq, Eq, PartialOrd, Ord, Hash)]
+struct Sym {
+    intent: u8,
+    form: u8,
+}
+
+#[derive(Clone, Debug)]
+struct Config {
+    name: String,
+    worldlines: u8,
+    /// (worldline, head label index 0|1, policy) in registration order
+    heads: Vec<(u8, u8, Pol)>,
+    /// intent -> (worldline, head label)
+    route: [(u8, u8); 4],
+    poison: (u8, u8),
+    depth: usize,
+}
+
+impl Config {
+    fn target(&self, w: u8, h: u8, form: u8) -> IngressTarget {
+        if form == 1 {
+            IngressTarget::ExactHead {
+                key: head_key(w, h),
+            }
+        } else if h == 0 {
+            IngressTarget::DefaultWriter {
+                worldline_id: wl(w),
+            }
+        } else {
+            IngressTarget::InboxAddress {
+                worldline_id: wl(w),
+                inbox: InboxAddress(NAMED.to_owned()),
+            }
+        }
+    }
+    fn envelope(&self, s: Sym) -> (IngressEnvelope, WriterHeadKey, IntentKind) {
+        if s.intent == 4 {
+            let (w, h) = self.poison;
+            let env = IngressEnvelope::local_intent(
+                self.target(w, h, s.form),
+                prog_kind(),
+                poison_program().to_bytes(),
+            );
+            (env, head_key(w, h), prog_kind())
+        } else {
+            let (kind, p) = intent(s.intent as usize);
+            let (w, h) = self.route[s.intent as usize];
+            let env = IngressEnvelope::local_intent(self.target(w, h, s.form), kind, p.to_bytes());
+            (env, head_key(w, h), kind)
+        }
+    }
+    /// Form used by the BFS (and by first occurrences in the reduced multiset alphabet).
+    fn f1(&self, intent: u8) -> u8 {
+        intent % 2
+    }
+    fn to_json(&self) -> Value {
+        json!({"name": self.name, "worldlines": self.worldlines,
+               "heads": self.heads.iter().map(|(w,h,p)| format!("wl{w}.h{h}:{p:?}")).collect::<Vec<_>>(),
+               "route": self.route.iter().map(|(w,h)| format!("wl{w}.h{h}")).collect::<Vec<_>>(),
+               "poison": format!("wl{}.h{}", self.poison.0, self.poison.1), "depth": self.depth})
+    }
+}
+
+/// `focus` = label of the head receiving all 4 intents on wl(1); the other head gets the poison.
+fn single_wl(focus: u8, pol: Pol, other: Pol, depth: usize) -> Config {
+    let o = 1 - focus;
+    Config {
+        name: format!("1wl:focus=h{focus}:{pol:?}:other={other:?}"),
+        worldlines: 1,
+        heads: vec![
+            (1, 0, if focus == 0 { pol } else { other }),
+            (1, 1, if focus == 1 { pol } else { other }),
+        ],
+        route: [(1, focus); 4],
+        poison: (1, o),
+        depth,
+    }
+}
+
+/// Two worldlines: a0,b1 → wl1.h0 ; a1,b0 → wl2.h1 ; poison → wl2.h0 (last head in key order).
+fn two_wl(p1: Pol, p2: Pol, depth: usize) -> Config {
+    Config {
+        name: format!("2wl:wl1.h0={p1:?}:wl2.h1={p2:?}"),
+        worldlines: 2,
+        heads: vec![
+            (2, 1, p2),
+            (1, 0, p1),
+            (2, 0, Pol::AcceptAll),
+            (1, 1, Pol::AcceptAll),
+        ],
+        route: [(1, 0), (2, 1), (2, 1), (1, 0)],
+        poison: (2, 0),
+        depth,
+    }
+}
+
+// ---------------------------------------------------------------------------------------------
+// Reference model
+// ---------------------------------------------------------------------------------------------
+
+#[derive(Clone, Debug)]
+struct HeadM {
+    key: WriterHeadKey,
+    pol: Pol,
+    pending: BTreeSet<Hash>,
+    committed: BTreeSet<Hash>,
+    faulted: bool,
+    /// ids that were pending while a pass was rolled back
+    survived_rollback: BTreeSet<Hash>,
+    /// ids left pending by a budgeted pass
+    left_by_budget: BTreeSet<Hash>,
+}
+
+#[derive(Clone, Debug)]
+struct Model {
+    /// canonical key order
+    heads: Vec<HeadM>,
+    /// (head, ingress id) -> (submission id, generation) of the first acceptance
+    witnessed: BTreeMap<(WriterHeadKey, Hash), (Hash, u64)>,
+    gen: u64,
+    poison_id: Hash,
+    desync: bool,
+}
+
+#[derive(Clone, Copy, Debug, PartialEq, Eq)]
+enum Disp {
+    Accepted,
+    Duplicate,
+    Rejected,
+}
+
+#[derive(Clone, Debug, PartialEq, Eq)]
+enum TickExp {
+    Fail { culprit: usize, committed_before: usize },
+    Commit(Vec<(usize, Vec<Hash>)>),
+}
+
+impl Model {
+    fn head_ix(&self, k: &WriterHeadKey) -> usize {
+        self.heads.iter().position(|h| h.key == *k).unwrap_or(0)
+    }
+    fn ingest(&mut self, head: usize, id: Hash, kind: IntentKind) -> Disp {
+        let h = &mut self.heads[head];
+        if h.committed.contains(&id) {
+            return Disp::Duplicate;
+        }
+        if !h.pol.accepts(kind) {
+            return Disp::Rejected;
+        }
+        if h.pending.contains(&id) {
+            return Disp::Duplicate;
+        }
+        h.pending.insert(id);
+        Disp::Accepted
+    }
+    fn expect_tick(&self) -> TickExp {
+        let mut commits = Vec::new();
+        for (i, h) in self.heads.iter().enumerate() {
+            if h.faulted {
+                continue;
+            }
+            let batch: Vec<Hash> = h.pending.iter().take(h.pol.budget()).copied().collect();
+            if batch.is_empty() {
+                continue;
+            }
+            if batch.contains(&self.poison_id) {
+                return TickExp::Fail {
+                    culprit: i,
+                    committed_before: commits.len(),
+                };
+            }
+            commits.push((i, batch));
+        }
+        TickExp::Commit(commits)
+    }
+}
+
+#[derive(Clone)]
+struct World {
+    rt: Rt,
+    m: Model,
+}
+
+fn build_world(cfg: &Config) -> World {
+    let heads: Vec<(u8, u8, InboxPolicy)> = cfg
+        .heads
+        .iter()
+        .map(|(w, h, p)| (*w, *h, p.real()))
+        .collect();
+    let rt = build_rt(cfg.worldlines, &heads);
+    let mut hm: Vec<HeadM> = cfg
+        .heads
+        .iter()
+        .map(|(w, h, p)| HeadM {
+            key: head_key(*w, *h),
+            pol: *p,
+            pending: BTreeSet::new(),
+            committed: BTreeSet::new(),
+            faulted: false,
+            survived_rollback: BTreeSet::new(),
+            left_by_budget: BTreeSet::new(),
+        })
+        .collect();
+    hm.sort_by_key(|h| h.key);
+    let poison_id = cfg.envelope(Sym { intent: 4, form: 0 }).0.ingress_id();
+    World {
+        rt,
+        m: Model {
+            heads: hm,
+            witnessed: BTreeMap::new(),
+            gen: 0,
+            poison_id,
+            desync: false,
+        },
+    }
+}
+
+// ---------------------------------------------------------------------------------------------
+// Observation plumbing
+// ---------------------------------------------------------------------------------------------
+
+#[derive(Default)]
+struct Out {
+    viol: Vec<(String, String, Value)>,
+    outcomes: BTreeMap<String, u64>,
+    counters: BTreeMap<&'static str, u64>,
+    nontrivial: Vec<u128>,
+    evals: u64,
+    traces: u64,
+    machinery: Vec<String>,
+}
+impl Out {
+    fn v(&mut self, sig: impl Into<String>, what: impl Into<String>, extra: Value) {
+        if self.viol.len() < 64 {
+            self.viol.push((sig.into(), what.into(), extra));
+        }
+    }
+    fn c(&mut self, k: &'static str) {
+        *self.counters.entry(k).or_default() += 1;
+    }
+    fn o(&mut self, k: String) {
+        *self.outcomes.entry(k).or_default() += 1;
+    }
+    fn merge(&mut self, o: Out) {
+        self.viol.extend(o.viol);
+        for (k, n) in o.outcomes {
+            *self.outcomes.entry(k).or_default() += n;
+        }
+        for (k, n) in o.counters {
+            *self.counters.entry(k).or_default() += n;
+        }
+        self.nontrivial.extend(o.nontrivial);
+        self.evals += o.evals;
+        self.traces += o.traces;
+        self.machinery.extend(o.machinery);
+    }
+}
+
+struct Ctx {
+    cfg: Config,
+    routes: HashMap<String, String>,
+    sched: SchedulerKind,
+}
+
+fn full_fp(rt: &Rt) -> (String, String) {
+    (format!("{:?}", rt.runtime), format!("{:?}", rt.provenance))
+}
+
+/// Fingerprint minus the documented arrival-order artefacts.
+fn canon_fp(cx: &Ctx, rt: &Rt, full: &(String, String), out: &mut Out) -> [u8; 32] {
+    let (c, rep) = canonicalize_arrival(&full.0, &cx.routes);
+    let subs = rt.runtime.witnessed_submission_count();
+    let pend: usize = pending_summary(&rt.runtime).iter().map(|x| x.1).sum();
+    if rep.unknown_targets != 0 || rep.generations != subs || rep.targets != subs + pend {
+        out.machinery.push(format!(
+            "canonicalisation replaced {rep:?}, expected generations={subs} targets={}",
+            subs + pend
+        ));
+    }
+    // provenance never stores envelopes; checked: nothing to replace there
+    let (p, rep2) = canonicalize_arrival(&full.1, &cx.routes);
+    if rep2 != Replaced::default() {
+        out.v(
+            "arrival-order-artefact-leaked-into-provenance",
+            format!("{rep2:?}"),
+            Value::Null,
+        );
+    }
+    let mut h = blake3::Hasher::new();
+    h.update(c.as_bytes());
+    h.update(b"\n");
+    h.update(p.as_bytes());
+    *h.finalize().as_bytes()
+}
+
+/// At-most-once ledger recomputed from provenance: every (head, ingress id) admitted by a committed
+/// tick, with multiplicity.  Ingress ids are the scope nodes of the tick receipt's entries.
+fn ledger(rt: &Rt) -> BTreeMap<(WriterHeadKey, Hash), u32> {
+    let mut m = BTreeMap::new();
+    for (wid, _) in rt.runtime.worldlines().iter() {
+        let n = rt.provenance.len(*wid).unwrap_or(0);
+        for t in 0..n {
+            if let Ok(e) = rt.provenance.entry(*wid, WorldlineTick::from_raw(t)) {
+                if let (Some(hk), Some(rc)) = (e.head_key, e.tick_receipt.as_ref()) {
+                    for x in rc.entries() {
+                        *m.entry((hk, x.scope.local_id.0)).or_default() += 1;
+                    }
+                }
+            }
+        }
+    }
+    m
+}
+
+fn sym_name(s: Sym) -> String {
+    format!(
+        "{}/{}",
+        if s.intent == 4 {
+            "poison"
+        } else {
+            INTENT_NAMES[s.intent as usize]
+        },
+        if s.form == 0 { "public" } else { "exact" }
+    )
+}
+
+// ---------------------------------------------------------------------------------------------
+// Validated transitions
+// ---------------------------------------------------------------------------------------------
+
+/// Ingest one symbol on the real runtime and the model; compare.
+fn step_ingest(cx: &Ctx, w: &mut World, s: Sym, check_noop: bool, out: &mut Out) -> Disp {
+    let (env, hk, kind) = cx.cfg.envelope(s);
+    let id = env.ingress_id();
+    let hi = w.m.head_ix(&hk);
+    let before = if check_noop { Some(full_fp(&w.rt)) } else { None };
+    let was_pending = w.m.heads[hi].pending.contains(&id);
+    let was_committed = w.m.heads[hi].committed.contains(&id);
+    let want = w.m.ingest(hi, id, kind);
+    let got = w.rt.runtime.ingest(env);
+    out.evals += 1;
+    let tag = sym_name(s);
+    let got_disp = match &got {
+        Ok(IngressDisposition::Accepted { .. }) => Some(Disp::Accepted),
+        Ok(IngressDisposition::Duplicate { .. }) => Some(Disp::Duplicate),
+        Err(RuntimeError::RejectedByPolicy(k)) if *k == hk => Some(Disp::Rejected),
+        Err(_) => None,
+    };
+    if got_disp != Some(want) {
+        let phase = if was_committed {
+            "committed"
+        } else if was_pending {
+            "pending"
+        } else {
+            "new"
+        };
+        out.v(
+            format!("ingest-disposition:{phase}:model={want:?}:real={}", got_disp.map(|d| format!("{d:?}")).unwrap_or_else(|| "error".into())),
+            format!("{tag}: {got:?}"),
+            Value::Null,
+        );
+        w.m.desync = true;
+        return want;
+    }
+    match (&got, want) {
+        (
+            Ok(IngressDisposition::Accepted {
+                ingress_id,
+                head_key,
+                submission_id,
+                submission_generation,
+            }),
+            Disp::Accepted,
+        ) => {
+            w.m.gen += 1;
+            if *ingress_id != id || *head_key != hk {
+                out.v("ingest-accepted:wrong-identity-or-route", tag.clone(), Value::Null);
+            }
+            match w.m.witnessed.get(&(hk, id)) {
+                // re-acceptance (never reachable here: nothing evicts) keeps the first identity
+                Some((sid, _)) => {
+                    if sid != submission_id {
+                        out.v("ingest-accepted:submission-id-changed", tag.clone(), Value::Null);
+                    }
+                }
+                None => {
+                    if submission_generation.as_u64() != w.m.gen {
+                        out.v(
+                            "ingest-accepted:generation-not-next",
+                            format!("{tag}: {} want {}", submission_generation.as_u64(), w.m.gen),
+                            Value::Null,
+                        );
+                    }
+                    w.m.witnessed
+                        .insert((hk, id), (*submission_id, submission_generation.as_u64()));
+                }
+            }
+        }
+        (
+            Ok(IngressDisposition::Duplicate {
+                ingress_id,
+                head_key,
+                submission_id,
+                submission_generation,
+            }),
+            Disp::Duplicate,
+        ) => {
+            // a retry returns the identity of the first acceptance
+            let first = w.m.witnessed.get(&(hk, id)).copied();
+            if *ingress_id != id
+                || *head_key != hk
+                || first != Some((*submission_id, submission_generation.as_u64()))
+            {
+                out.v(
+                    "ingest-duplicate:identity-differs-from-first-acceptance",
+                    format!("{tag}: {got:?} first={first:?}"),
+                    Value::Null,
+                );
+            }
+            if was_committed {
+                out.c("duplicate_refused_after_commit");
+                if w.m.heads[hi].survived_rollback.contains(&id) {
+                    out.c("duplicate_refused_after_commit_that_followed_a_rollback");
+                }
+            } else {
+                out.c("duplicate_refused_while_pending");
+                if w.m.heads[hi].survived_rollback.contains(&id) {
+                    out.c("duplicate_refused_while_pending_after_rollback");
+                }
+                if w.m.heads[hi].left_by_budget.contains(&id) {
+                    out.c("duplicate_refused_while_left_pending_by_budget");
+                }
+            }
+        }
+        (_, Disp::Rejected) => out.c("rejected_by_kind_filter"),
+        _ => {}
+    }
+    if let (Some(b), true) = (before, want != Disp::Accepted) {
+        if b != full_fp(&w.rt) {
+            out.v(
+                format!("ingest-{want:?}:state-changed"),
+                format!("{tag}: a refused submission changed ledger state"),
+                Value::Null,
+            );
+        }
+    }
+    want
+}
+
+/// What a pass produced, as compared across permutations.
+struct TickObs {
+    digest: [u8; 32],
+    label: String,
+}
+
+/// One real pass + model step + invariants (at-most-once, admitted batch = model's, event nodes).
+fn step_tick(cx: &Ctx, w: &mut World, out: &mut Out) -> TickObs {
+    let pre = w.rt.clone();
+    let exp = w.m.expect_tick();
+    let run = run_pass(&mut w.rt, cx.sched);
+    out.evals += 1;
+    let label = run.outcome.label();
+    out.o(format!("pass:{label}"));
+    if !run.engine_clean {
+        out.v("engine-state-dirty-after-pass", label.clone(), Value::Null);
+    }
+    let mut recs_dbg = String::new();
+    match (&exp, &run.outcome) {
+        (TickExp::Commit(commits), PassOutcome::Ok(records)) => {
+            recs_dbg = format!("{records:?}");
+            let got: Vec<(WriterHeadKey, usize)> =
+                records.iter().map(|r| (r.head_key, r.admitted_count)).collect();
+            let want: Vec<(WriterHeadKey, usize)> = commits
+                .iter()
+                .map(|(i, b)| (w.m.heads[*i].key, b.len()))
+                .collect();
+            if got != want {
+                out.v(
+                    "pass:committed-heads-or-admitted-counts-differ-from-model",
+                    format!("got {got:?} want {want:?}"),
+                    Value::Null,
+                );
+                w.m.desync = true;
+            }
+            for (ri, (i, batch)) in commits.iter().enumerate() {
+                let key = w.m.heads[*i].key;
+                let wid = key.worldline_id;
+                // admitted batch = the model's (first `budget` pending ids in id order)
+                if let Some(rec) = records.get(ri) {
+                    let tick = WorldlineTick::from_raw(rec.worldline_tick_after.as_u64().saturating_sub(1));
+                    match w.rt.provenance.entry(wid, tick) {
+                        Ok(e) => {
+                            let ids: BTreeSet<Hash> = e
+                                .tick_receipt
+                                .as_ref()
+                                .map(|rc| rc.entries().iter().map(|x| x.scope.local_id.0).collect())
+                                .unwrap_or_default();
+                            let wantids: BTreeSet<Hash> = batch.iter().copied().collect();
+                            if ids != wantids {
+                                out.v(
+                                    "pass:admitted-batch-differs-from-canonical-prefix",
+                                    format!("head {i}: {} ids admitted, model {}", ids.len(), wantids.len()),
+                                    Value::Null,
+                                );
+                            }
+                            if e.head_key != Some(key)
+                                || e.expected.commit_hash != rec.commit_hash
+                                || e.expected.state_root != rec.state_root
+                                || e.commit_global_tick != rec.commit_global_tick
+                            {
+                                out.v("pass:step-record-vs-provenance", format!("head {i}"), Value::Null);
+                            }
+                        }
+                        Err(e) => out.v(
+                            "pass:step-record-without-provenance-entry",
+                            format!("{e:?}"),
+                            Value::Null,
+                        ),
+                    }
+                }
+                let pend_before = w.m.heads[*i].pending.len();
+                if batch.len() < pend_before {
+                    out.c("budget_left_part_of_the_batch_pending");
+                }
+                for id in batch {
+                    let h = &mut w.m.heads[*i];
+                    h.pending.remove(id);
+                    if !h.committed.insert(*id) {
+                        out.v("at-most-once:model-recommitted", format!("head {i}"), Value::Null);
+                    }
+                    if h.survived_rollback.contains(id) {
+                        out.c("commit_after_rollback");
+                    }
+                    h.left_by_budget.remove(id);
+                    // content-addressed event node with the intent bytes
+                    match event_node(&w.rt.runtime, &wid, id) {
+                        Some(Some(_)) => {}
+                        other => out.v(
+                            "pass:committed-ingress-without-event-node",
+                            format!("head {i}: {other:?}"),
+                            Value::Null,
+                        ),
+                    }
+                }
+                let h = &mut w.m.heads[*i];
+                h.left_by_budget = h.pending.clone();
+            }
+            if commits.len() >= 1 {
+                out.c("committing_passes");
+            }
+        }
+        (TickExp::Fail { culprit, committed_before }, PassOutcome::Err(RuntimeError::Engine(_))) => {
+            out.c("rolled_back_passes");
+            if *committed_before > 0 {
+                out.c("rolled_back_passes_after_earlier_head_committed");
+            }
+            // all-or-nothing (C09 decides this in depth; here it is the premise of "retry after rollback")
+            let (a, b) = (runtime_view(&pre.runtime), runtime_view(&w.rt.runtime));
+            match (a, b) {
+                (Some(a), Some(b)) => {
+                    if a.rest != b.rest
+                        || format!("{:?}", pre.provenance) != format!("{:?}", w.rt.provenance)
+                    {
+                        out.v(
+                            "rolled-back-pass:state-not-restored",
+                            format!("culprit {culprit}"),
+                            Value::Null,
+                        );
+                    }
+                }
+                _ => out.machinery.push("runtime Debug text not splittable".into()),
+            }
+            let ck = w.m.heads[*culprit].key;
+            if !w.rt.runtime.is_head_faulted(&ck)
+                || !w
+                    .rt
+                    .runtime
+                    .scheduler_fault_for_head(&ck)
+                    .is_some_and(|f| f.scope == SchedulerFaultScope::Head(ck))
+            {
+                out.v("rolled-back-pass:culprit-not-quarantined", format!("{ck:?}"), Value::Null);
+            }
+            w.m.heads[*culprit].faulted = true;
+            for h in w.m.heads.iter_mut() {
+                let p = h.pending.clone();
+                h.survived_rollback.extend(p);
+            }
+        }
+        (e, o) => {
+            out.v(
+                format!("pass:outcome-differs-from-model:{}", o.label()),
+                format!("model {e:?}, real {o:?}"),
+                Value::Null,
+            );
+            w.m.desync = true;
+        }
+    }
+    // inbox contents = model
+    let want_p: Vec<usize> = w.m.heads.iter().map(|h| h.pending.len()).collect();
+    let got_p: Vec<usize> = pending_summary(&w.rt.runtime).iter().map(|x| x.1).collect();
+    if want_p != got_p && !w.m.desync {
+        out.v(
+            "pass:pending-sets-differ-from-model",
+            format!("got {got_p:?} want {want_p:?}"),
+            Value::Null,
+        );
+    }
+    // at-most-once, recomputed from provenance over the whole history of this path
+    let led = ledger(&w.rt);
+    for ((hk, id), n) in &led {
+        if *n > 1 {
+            out.v(
+                "at-most-once:ingress-admitted-by-more-than-one-committed-tick",
+                format!("{hk:?} {} x{n}", mc::hex(&id[..6])),
+                Value::Null,
+            );
+        }
+    }
+    let model_committed: BTreeSet<(WriterHeadKey, Hash)> = w
+        .m
+        .heads
+        .iter()
+        .flat_map(|h| h.committed.iter().map(move |id| (h.key, *id)))
+        .collect();
+    if led.keys().copied().collect::<BTreeSet<_>>() != model_committed && !w.m.desync {
+        out.v(
+            "at-most-once:committed-ledger-differs-from-model",
+            format!("{} in provenance, {} in model", led.len(), model_committed.len()),
+            Value::Null,
+        );
+    }
+    // event nodes exist exactly for committed ingress (per worldline)
+    for i in 0..5u8 {
+        let (env, hk, _) = cx.cfg.envelope(Sym { intent: i, form: 0 });
+        let id = env.ingress_id();
+        let committed_on_wl = w
+            .m
+            .heads
+            .iter()
+            .any(|h| h.key.worldline_id == hk.worldline_id && h.committed.contains(&id));
+        let present = event_node(&w.rt.runtime, &hk.worldline_id, &id).is_some();
+        if present != committed_on_wl && !w.m.desync {
+            out.v(
+                "event-node-presence-differs-from-committed-ledger",
+                format!("{} present={present}", sym_name(Sym { intent: i, form: 0 })),
+                Value::Null,
+            );
+        }
+    }
+    let post = full_fp(&w.rt);
+    let c = canon_fp(cx, &w.rt, &post, out);
+    let mut h = blake3::Hasher::new();
+    h.update(label.as_bytes());
+    h.update(recs_dbg.as_bytes());
+    h.update(&c);
+    TickObs {
+        digest: *h.finalize().as_bytes(),
+        label,
+    }
+}
+
+// ---------------------------------------------------------------------------------------------
+// Permutation oracle
+// ---------------------------------------------------------------------------------------------
+
+/// Multisets of submissions: per intent one of the given occurrence lists (or absent), total size
+/// 1..=max.
+fn multisets(per_intent: &dyn Fn(u8) -> Vec<Vec<Sym>>, max: usize) -> Vec<Vec<Sym>> {
+    let mut out: Vec<Vec<Sym>> = vec![Vec::new()];
+    for i in 0..4u8 {
+        let mut next = Vec::new();
+        for base in &out {
+            next.push(base.clone());
+            for occ in per_intent(i) {
+                if base.len() + occ.len() <= max {
+                    let mut b = base.clone();
+                    b.extend(occ);
+                    next.push(b);
+                }
+            }
+        }
+        out = next;
+    }
+    out.retain(|m| !m.is_empty());
+    out
+}
+
+fn distinct_perms(x: &[Sym]) -> Vec<Vec<Sym>> {
+    let mut set = BTreeSet::new();
+    mc::enumerate::permutations(x.len(), |p| {
+        set.insert(p.iter().map(|i| x[*i]).collect::<Vec<_>>());
+    });
+    set.into_iter().collect()
+}
+
+type Memo = Vec<Mutex<HashMap<[u8; 32], ([u8; 32], [u8; 32], String)>>>;
+
+/// In state `w`: for every multiset, all distinct permutations give equal canonical states and
+/// equal following passes.
+fn oracle(cx: &Ctx, w: &World, xs: &[Vec<Sym>], memo: &Memo, path: &[String], out: &mut Out) {
+    for x in xs {
+        let perms = distinct_perms(x);
+        let mut first: Option<([u8; 32], [u8; 32], String, Vec<Sym>)> = None;
+        let mut effective = 0usize;
+        for p in &perms {
+            let mut w2 = w.clone();
+            let mut accepted = 0;
+            for s in p {
+                if step_ingest(cx, &mut w2, *s, false, out) == Disp::Accepted {
+                    accepted += 1;
+                }
+                if w2.m.desync {
+                    break;
+                }
+            }
+            if w2.m.desync {
+                break;
+            }
+            out.traces += 1;
+            let full = full_fp(&w2.rt);
+            let fh = mc::h(format!("{}\n{}", full.0, full.1).as_bytes());
+            let shard = &memo[(fh[0] as usize) % memo.len()];
+            let cached = shard.lock().unwrap().get(&fh).cloned();
+            let (canon, tick, label) = match cached {
+                Some(c) => {
+                    out.c("oracle_pass_memo_hits");
+                    c
+                }
+                None => {
+                    let canon = canon_fp(cx, &w2.rt, &full, out);
+                    let obs = step_tick(cx, &mut w2, out);
+                    let v = (canon, obs.digest, obs.label);
+                    shard.lock().unwrap().insert(fh, v.clone());
+                    v
+                }
+            };
+            effective = effective.max(accepted);
+            match &first {
+                None => first = Some((canon, tick, label, p.clone())),
+                Some((c0, t0, l0, p0)) => {
+                    let case = json!({"config": cx.cfg.name, "path": path,
+                        "perm_a": p0.iter().map(|s| sym_name(*s)).collect::<Vec<_>>(),
+                        "perm_b": p.iter().map(|s| sym_name(*s)).collect::<Vec<_>>()});
+                    let polsig = format!("{:?}", cx.cfg.heads.iter().map(|h| h.2).collect::<Vec<_>>());
+                    if *c0 != canon {
+                        out.v(
+                            format!("order-freedom:pending-state-depends-on-arrival-order:policies={polsig}"),
+                            "states differ beyond submission generations / stored target form",
+                            case.clone(),
+                        );
+                    }
+                    if *t0 != tick {
+                        out.v(
+                            format!("order-freedom:committed-tick-depends-on-arrival-order:policies={polsig}"),
+                            format!("{l0} vs {label}"),
+                            case,
+                        );
+                    }
+                }
+            }
+        }
+        if perms.len() >= 2 {
+            out.c("multisets_with_2plus_orders_compared");
+            if effective >= 2 {
+                out.c("multisets_with_2plus_orders_and_2plus_new_submissions");
+                out.nontrivial.push(Report::key(
+                    format!("{}|{path:?}|{x:?}", cx.cfg.name).as_bytes(),
+                ));
+            }
+        }
+    }
+}
+
+// ---------------------------------------------------------------------------------------------
+// Runtime BFS
+// ---------------------------------------------------------------------------------------------
+
+#[derive(Clone, Copy, Debug, PartialEq, Eq)]
+enum Op {
+    Ingest(Sym),
+    Tick,
+}
+fn op_name(o: &Op) -> String {
+    match o {
+        Op::Ingest(s) => sym_name(*s),
+        Op::Tick => "pass".into(),
+    }
+}
+
+struct BfsResult {
+    states: u64,
+    transitions: u64,
+    max_depth: usize,
+    capped: bool,
+}
+
+fn explore(r: &Report, cx: &Ctx, xs: &[Vec<Sym>], memo: &Memo, budget_frac: f64) -> BfsResult {
+    let cfg = &cx.cfg;
+    let mut ops: Vec<Op> = (0..4u8)
+        .map(|i| {
+            Op::Ingest(Sym {
+                intent: i,
+                form: cfg.f1(i),
+            })
+        })
+        .collect();
+    ops.push(Op::Tick);
+    ops.push(Op::Ingest(Sym { intent: 4, form: 0 }));
+    let w0 = build_world(cfg);
+    let key = |w: &World| {
+        let f = full_fp(&w.rt);
+        mc::h(format!("{}\n{}", f.0, f.1).as_bytes())
+    };
+    let mut seen = BTreeSet::new();
+    seen.insert(key(&w0));
+    let mut res = BfsResult {
+        states: 1,
+        transitions: 0,
+        max_depth: 0,
+        capped: false,
+    };
+    let mut frontier: Vec<(World, Vec<String>)> = vec![(w0, Vec::new())];
+    for depth in 0..=cfg.depth {
+        if frontier.is_empty() {
+            break;
+        }
+        if r.over_budget_frac(budget_frac) {
+            res.capped = true;
+            break;
+        }
+        let expand = depth < cfg.depth;
+        let results: Vec<(Out, Vec<([u8; 32], World, Vec<String>)>, bool)> = frontier
+            .par_iter()
+            .map(|(w, path)| {
+                let mut out = Out::default();
+                if r.over_budget_frac(budget_frac) {
+                    return (out, Vec::new(), false);
+                }
+                // the order-freedom oracle in THIS state
+                oracle(cx, w, xs, memo, path, &mut out);
+                let mut succ = Vec::new();
+                if expand {
+                    for op in &ops {
+                        let mut w2 = w.clone();
+                        match op {
+                            Op::Ingest(s) => {
+                                step_ingest(cx, &mut w2, *s, true, &mut out);
+                            }
+                            Op::Tick => {
+                                step_tick(cx, &mut w2, &mut out);
+                            }
+                        }
+                        let mut p2 = path.clone();
+                        p2.push(op_name(op));
+                        for v in out.viol.iter_mut() {
+                            if v.2.is_null() {
+                                v.2 = json!({"config": cx.cfg.name, "path": p2});
+                            }
+                        }
+                        if w2.m.desync {
+                            continue;
+                        }
+                        succ.push((key(&w2), w2, p2));
+                    }
+                }
+                (out, succ, true)
+            })
+            .collect();
+        let mut next = Vec::new();
+        for (out, succ, done) in results {
+            if !done {
+                res.capped = true;
+            }
+            flush(r, out);
+            for (k, w2, p2) in succ {
+                res.transitions += 1;
+                if seen.insert(k) {
+                    res.states += 1;
+                    next.push((w2, p2));
+                }
+            }
+        }
+        res.max_depth = depth;
+        frontier = next;
+        if res.capped {
+            break;
+        }
+    }
+    res
+}
+
+fn flush(r: &Report, out: Out) {
+    r.eval(out.evals);
+    r.add_traces(out.traces);
+    r.nontrivial_many(out.nontrivial.iter().copied());
+    for (k, n) in &out.outcomes {
+        r.outcome_n(k, *n);
+    }
+    for (k, n) in &out.counters {
+        r.counter(k, *n);
+    }
+    for m in &out.machinery {
+        r.machinery_error(m);
+    }
+    for (sig, what, case) in out.viol {
+        r.violation(&sig, json!({"case": case, "what": what}));
+    }
+}
+
+// ---------------------------------------------------------------------------------------------
+// Phase 1: identity
+// ---------------------------------------------------------------------------------------------
+
+fn receipt_ref(n: u8) -> CausalTickReceiptRef {
+    CausalTickReceiptRef {
+        worldline_id: wl(n),
+        worldline_tick_after: WorldlineTick::from_raw(n as u64),
+        commit_global_tick: GlobalTick::from_raw(n as u64 + 1),
+        commit_hash: [n; 32],
+        submission_id: [n.wrapping_add(1); 32],
+        ticket_digest: [n.wrapping_add(2); 32],
+        receipt_content_digest: [n.wrapping_add(3); 32],
+    }
+}
+
+fn identity_phase(r: &Report) {
+    let parents_alpha = [
+        IngressCausalParent::TickReceipt {
+            receipt_ref: receipt_ref(1),
+        },
+        IngressCausalParent::TickReceipt {
+            receipt_ref: receipt_ref(2),
+        },
+        IngressCausalParent::ContractInverseTarget {
+            receipt_ref: receipt_ref(1),
+        },
+    ];
+    let mut byte_alpha: Vec<Vec<u8>> = (0..4).map(|i| intent(i).1.to_bytes()).collect();
+    byte_alpha.push(poison_program().to_bytes());
+    byte_alpha.push(Vec::new());
+    byte_alpha.push(vec![0]);
+    byte_alpha.push(intent(0).1.to_bytes()[..8].to_vec());
+    // length-extension shaped pair: bytes ++ le64(0) vs bytes
+    let mut ext = intent(0).1.to_bytes();
+    ext.extend_from_slice(&0u64.to_le_bytes());
+    byte_alpha.push(ext);
+    let kinds = [prog_kind(), other_kind()];
+    let targets = [
+        IngressTarget::DefaultWriter {
+            worldline_id: wl(1),
+        },
+        IngressTarget::InboxAddress {
+            worldline_id: wl(1),
+            inbox: InboxAddress(NAMED.to_owned()),
+        },
+        IngressTarget::ExactHead {
+            key: head_key(1, 0),
+        },
+    ];
+    let max_len = r.pick(3, 4);
+    let mut parent_seqs: Vec<Vec<IngressCausalParent>> = vec![Vec::new()];
+    for len in 1..=max_len {
+        mc::enumerate::sequences(parents_alpha.len(), len, |s| {
+            parent_seqs.push(s.iter().map(|i| parents_alpha[*i]).collect());
+        });
+    }
+    type Content = (IntentKind, Vec<u8>, Vec<IngressCausalParent>);
+    let mut by_id: BTreeMap<Hash, BTreeSet<String>> = BTreeMap::new();
+    let mut by_content: BTreeMap<String, BTreeSet<Hash>> = BTreeMap::new();
+    let mut n = 0u64;
+    for kind in kinds {
+        for bytes in &byte_alpha {
+            for ps in &parent_seqs {
+                let mut canon = ps.clone();
+                canon.sort_unstable();
+                canon.dedup();
+                let content: Content = (kind, bytes.clone(), canon.clone());
+                let ckey = format!("{content:?}");
+                for t in &targets {
+                    let env = IngressEnvelope::local_intent_with_causal_parents(
+                        t.clone(),
+                        kind,
+                        bytes.clone(),
+                        ps.clone(),
+                    );
+                    n += 1;
+                    by_id.entry(env.ingress_id()).or_default().insert(ckey.clone());
+                    by_content
+                        .entry(ckey.clone())
+                        .or_default()
+                        .insert(env.ingress_id());
+                    if env.causal_parents() != canon.as_slice() {
+                        r.violation(
+                            "identity:causal-parents-not-canonicalised-as-a-set",
+                            json!({"case": {"parents": format!("{ps:?}")}}),
+                        );
+                    }
+                    if ps.is_empty() {
+                        let plain = IngressEnvelope::local_intent(t.clone(), kind, bytes.clone());
+                        if plain.ingress_id() != env.ingress_id() {
+                            r.violation("identity:empty-parent-list-changes-id", json!({"case": {}}));
+                        }
+                    }
+                    match IngressEnvelope::from_retained_bytes(&env.to_retained_bytes_v2()) {
+                        Ok(back) if back == env && back.ingress_id() == env.ingress_id() => {}
+                        other => r.violation(
+                            "identity:retained-bytes-roundtrip-changes-envelope",
+                            json!({"case": {"content": ckey, "got": format!("{other:?}")}}),
+                        ),
+                    }
+                }
+            }
+        }
+    }
+    r.eval(n);
+    r.counter("identity_envelopes", n);
+    r.counter("identity_distinct_ids", by_id.len() as u64);
+    r.counter("identity_distinct_contents", by_content.len() as u64);
+    for (id, cs) in &by_id {
+        if cs.len() > 1 {
+            r.violation(
+                "identity:distinct-(kind,bytes,parents)-share-an-ingress-id",
+                json!({"case": {"id": mc::hex(id), "contents": cs.iter().collect::<Vec<_>>()}}),
+            );
+        }
+    }
+    for (c, ids) in &by_content {
+        if ids.len() > 1 {
+            r.violation(
+                "identity:equal-(kind,bytes,parents)-get-different-ingress-ids",
+                json!({"case": {"content": c}}),
+            );
+        }
+    }
+    r.guard(
+        "identity_parent_permutations_collapsed",
+        by_content.len() < (n / 3) as usize && by_id.len() == by_content.len(),
+    );
+    r.nontrivial(b"identity:parent-set-permutations");
+    r.sample(json!({"phase": "identity", "envelopes": n, "distinct_ids": by_id.len(),
+        "parent_sequences": parent_seqs.len(), "byte_strings": byte_alpha.len()}));
+
+    // Observation (outside the stated alphabet, not a verdict): the parentless and the causal hash
+    // domains are prefix-related ("ingress:" vs "ingress:causal:v2\0"); a kind built with the public
+    // `IntentKind::from_hash` can therefore replay a causal preimage in the parentless domain.
+    let causal = IngressEnvelope::local_intent_with_causal_parents(
+        targets[0].clone(),
+        prog_kind(),
+        b"x".to_vec(),
+        vec![parents_alpha[0]],
+    );
+    let mut pre = Vec::new();
+    pre.extend_from_slice(prog_kind().as_hash());
+    pre.extend_from_slice(&1u64.to_le_bytes());
+    pre.extend_from_slice(b"x");
+    pre.extend_from_slice(&1u64.to_le_bytes());
+    pre.extend_from_slice(b"tick-receipt\0");
+    pre.extend_from_slice(&receipt_ref(1).to_canonical_bytes());
+    let mut crafted_kind = [0u8; 32];
+    crafted_kind[..10].copy_from_slice(b"causal:v2\0");
+    crafted_kind[10..].copy_from_slice(&pre[..22]);
+    let crafted = IngressEnvelope::local_intent(
+        targets[0].clone(),
+        IntentKind::from_hash(crafted_kind),
+        pre[22..].to_vec(),
+    );
+    r.note(
+        "observation_cross_domain_preimage",
+        json!({"crafted_parentless_intent_collides_with_causal_intent": crafted.ingress_id() == causal.ingress_id(),
+               "note": "needs a kind hash chosen through IntentKind::from_hash; outside the label-derived kind alphabet of the identity oracle"}),
+    );
+}
+
+// ---------------------------------------------------------------------------------------------
+// Phase 2: HeadInbox BFS (policy changes between passes)
+// ---------------------------------------------------------------------------------------------
+
+#[derive(Clone, Debug)]
+struct InboxM {
+    pol: Pol,
+    pending: BTreeMap<Hash, IntentKind>,
+}
+
+fn inbox_phase(r: &Report) {
+    let hk = head_key(1, 0);
+    // 4 intents + a second target form of intent 0 (same id)
+    let mut envs: Vec<(IngressEnvelope, IntentKind)> = (0..4)
+        .map(|i| {
+            let (k, p) = intent(i);
+            (
+                IngressEnvelope::local_intent(
+                    IngressTarget::DefaultWriter {
+                        worldline_id: wl(1),
+                    },
+                    k,
+                    p.to_bytes(),
+                ),
+                k,
+            )
+        })
+        .collect();
+    envs.push((
+        IngressEnvelope::local_intent(
+            IngressTarget::ExactHead { key: hk },
+            intent(0).0,
+            intent(0).1.to_bytes(),
+        ),
+        intent(0).0,
+    ));
+    let routes = route_table(1, &[hk, head_key(1, 1)]);
+    #[derive(Clone, Copy, Debug)]
+    enum IOp {
+        Ingest(usize),
+        Admit,
+        Set(Pol),
+    }
+    let mut ops: Vec<IOp> = (0..envs.len()).map(IOp::Ingest).collect();
+    ops.push(IOp::Admit);
+    ops.extend(POLICIES.iter().map(|p| IOp::Set(*p)));
+    let depth = r.pick(4, 6);
+    let canon = |ib: &HeadInbox| canonicalize_arrival(&format!("{ib:?}"), &routes).0;
+    let ids_of = |v: &[IngressEnvelope]| v.iter().map(|e| e.ingress_id()).collect::<Vec<_>>();
+    let subsets = mc::enumerate::subsets_range(4, 2, 3);
+
+    let stats = mc::bfs::bfs(
+        (
+            HeadInbox::new(hk, InboxPolicy::AcceptAll),
+            InboxM {
+                pol: Pol::AcceptAll,
+                pending: BTreeMap::new(),
+            },
+        ),
+        depth,
+        |s| format!("{:?}", s.0).into_bytes(),
+        |_, _| ops.clone(),
+        |s, op, path| {
+            let (mut ib, mut m) = s.clone();
+            let case = || json!({"phase": "inbox", "path": format!("{path:?}"), "op": format!("{op:?}")});
+            r.eval(1);
+            match op {
+                IOp::Ingest(j) => {
+                    let (env, kind) = &envs[*j];
+                    let id = env.ingress_id();
+                    let want = if !m.pol.accepts(*kind) {
+                        InboxIngestResult::Rejected
+                    } else if m.pending.contains_key(&id) {
+                        InboxIngestResult::Duplicate
+                    } else {
+                        m.pending.insert(id, *kind);
+                        InboxIngestResult::Accepted
+                    };
+                    let got = ib.ingest(env.clone());
+                    if got != want {
+                        r.violation(
+                            &format!("inbox:ingest-result:model={want:?}:real={got:?}"),
+                            json!({"case": case()}),
+                        );
+                    }
+                    r.outcome(&format!("inbox_ingest:{got:?}"));
+                }
+                IOp::Admit => {
+                    let n = m.pol.budget().min(m.pending.len());
+                    let want: Vec<Hash> = m.pending.keys().take(n).copied().collect();
+                    for id in &want {
+                        m.pending.remove(id);
+                    }
+                    let can = ib.can_admit();
+                    let got = ids_of(&ib.admit());
+                    if got != want {
+                        r.violation(
+                            "inbox:admitted-batch-is-not-the-ascending-id-prefix",
+                            json!({"case": case(), "got": got.len(), "want": want.len()}),
+                        );
+                    }
+                    if can != !want.is_empty() {
+                        r.violation("inbox:can_admit-disagrees-with-admit", json!({"case": case()}));
+                    }
+                    if !want.is_empty() && !m.pending.is_empty() {
+                        r.counter("inbox_budget_left_pending", 1);
+                    }
+                }
+                IOp::Set(p) => {
+                    m.pol = *p;
+                    m.pending.retain(|_, k| p.accepts(*k));
+                    ib.set_policy(p.real());
+                }
+            }
+            if ib.pending_count() != m.pending.len() || ib.is_empty() != m.pending.is_empty() {
+                r.violation("inbox:pending-count-differs-from-model", json!({"case": case()}));
+            }
+            Some((ib, m))
+        },
+        |s, path| {
+            // order-freedom in this state: all permutations of every 2..3-subset of the 4 intents
+            // (intent 0 arriving in either target form) give the same inbox and the same next batch
+            for sub in &subsets {
+                let mut first: Option<(String, Vec<Hash>)> = None;
+                let mut orders = 0;
+                mc::enumerate::permutations(sub.len(), |p| {
+                    for alt in 0..2 {
+                        let mut ib = s.0.clone();
+                        for i in p {
+                            let j = sub[*i];
+                            let j = if j == 0 && alt == 1 { 4 } else { j };
+                            ib.ingest(envs[j].0.clone());
+                        }
+                        let c = canon(&ib);
+                        let batch = ids_of(&ib.admit());
+                        let c2 = canon(&ib);
+                        orders += 1;
+                        r.eval(1);
+                        match &first {
+                            None => first = Some((format!("{c}|{c2}"), batch)),
+                            Some((c0, b0)) => {
+                                if *c0 != format!("{c}|{c2}") || *b0 != batch {
+                                    r.violation(
+                                        &format!(
+                                            "inbox:order-freedom:policy={:?}",
+                                            s.1.pol
+                                        ),
+                                        json!({"case": {"phase": "inbox", "path": format!("{path:?}"), "subset": sub, "perm": p}}),
+                                    );
+                                }
+                            }
+                        }
+                    }
+                });
+                if orders >= 2 {
+                    r.counter("inbox_permutation_classes_compared", 1);
+                }
+            }
+        },
+        || r.over_budget_frac(0.25),
+    );
+    r.add_states(stats.states);
+    r.add_transitions(stats.transitions);
+    r.add_traces(stats.paths);
+    r.note(
+        "inbox_bfs",
+        json!({"states": stats.states, "transitions": stats.transitions, "depth": stats.max_depth, "capped": stats.capped}),
+    );
+    if stats.capped {
+        r.cap_hit("HeadInbox BFS stopped by the wall cap");
+    }
+    r.guard("inbox_budget_left_pending_seen", r.counter_value("inbox_budget_left_pending") > 0);
+    r.guard(
+        "inbox_duplicates_and_rejections_seen",
+        r.outcome_count("inbox_ingest:Duplicate") > 0 && r.outcome_count("inbox_ingest:Rejected") > 0,
+    );
+    r.sample(json!({"phase": "inbox", "ops": ops.iter().map(|o| format!("{o:?}")).collect::<Vec<_>>(), "depth": depth}));
+}
+
+// ---------------------------------------------------------------------------------------------
+// main
+// ---------------------------------------------------------------------------------------------
+
+fn configs(r: &Report) -> Vec<Config> {
+    let mut v = Vec::new();
+    if r.quick() {
+        // focus h1 sorts BEFORE h0 in canonical key order, so a poisoned h0 rolls back a pass in which
+        // the focus head had already committed
+        for p in POLICIES {
+            let d = match p {
+                Pol::Budgeted(1) | Pol::Budgeted(2) => 3,
+                _ => 2,
+            };
+            v.push(single_wl(1, p, Pol::AcceptAll, d));
+        }
+        v.push(single_wl(0, Pol::Budgeted(1), Pol::Budgeted(1), 2));
+        v.push(two_wl(Pol::Budgeted(1), Pol::AcceptAll, 2));
+    } else {
+        for focus in [1u8, 0u8] {
+            for p in POLICIES {
+                for other in [Pol::AcceptAll, Pol::Budgeted(1)] {
+                    v.push(single_wl(focus, p, other, 5));
+                }
+            }
+        }
+        for p1 in POLICIES {
+            for p2 in [Pol::AcceptAll, Pol::Budgeted(1), Pol::KindFilter] {
+                v.push(two_wl(p1, p2, 4));
+            }
+        }
+    }
+    v
+}
 
 fn main() {
-    let mut rt = Rt::new(2, 2);
-    let p = Program::new(vec![Step::SetNodeAtt { n: 1, v: 1 }]);
-    let p2 = Program::new(vec![Step::SetNodeAtt { n: 1, v: 5 }]);
-    let e1 = intent_default(wl(1), &p);
-    let e2 = intent_exact(rt.heads[0], other_kind(), &p2);
-    rt.runtime.ingest(e1.clone()).unwrap();
-    rt.runtime.ingest(e2.clone()).unwrap();
-    let n = 300;
-    let t = Instant::now();
-    for _ in 0..n {
-        let _e = fresh_engine(SchedulerKind::Radix, 1);
+    let r = Report::new("C08", Level::ModelChecking);
+    mc::quiet_panics();
+    let _ = rayon::ThreadPoolBuilder::new()
+        .num_threads(
+            2 * std::thread::available_parallelism()
+                .map(|n| n.get())
+                .unwrap_or(8),
+        )
+        .build_global();
+    r.rule(
+        "runtime phase: per configuration (worldlines, per-head inbox policy from {AcceptAll, KindFilter{verif/program}, Budgeted 0/1/2}, routing), \
+         BFS over ops {ingest(intent a0|a1|b0|b1, form), pass, poison(failing program on another head)} to the stated depth, dedup on the FULL Debug \
+         fingerprint of runtime+provenance; in every visited state every multiset of submissions (size <= bound, per-intent multiplicity <= 2, the retry \
+         using the other target form) is applied in ALL distinct orders and followed by a pass. identity phase: kinds x byte strings x every sequence \
+         (<= bound) over 3 causal parents x 3 target forms. inbox phase: BFS over the real HeadInbox with ingest/admit/set_policy. \
+         distinct_nontrivial counts (configuration, state path, multiset) triples that had >= 2 distinct orders and >= 2 newly accepted submissions",
+    );
+    r.assume("arrival-order artefacts excluded from the order-freedom comparison, each justified by reading coordinator.rs/head_inbox.rs: (1) IntentSubmissionRecord.submission_generation — documented as Echo-owned intake/correlation audit metadata, 'not scheduler order'; assigned from a counter at first acceptance (record_witnessed_submission); the runtime-level next_submission_generation counter is NOT excluded; (2) the stored *form* of IngressEnvelope.target in HeadInbox.pending and witnessed_submission_envelopes — the first arrival's envelope is retained (Entry::Vacant); it is replaced by the head it resolves to, so routing itself stays compared. Nothing else is excluded; the following pass is executed on every permutation's end state, so any influence of the excluded fields on commits is caught");
+    r.assume("BFS dedup key = full Debug fingerprint (nothing removed): the transition functions (ingest, super_tick on a fresh engine with constant configuration) read only runtime+provenance, so equal keys have equal futures");
+    r.assume("WorldlineRuntime exposes no inbox-policy setter: runtime-level policies are fixed per configuration at WriterHead construction; policy CHANGES between passes are explored on the real HeadInbox (set_policy) in the inbox phase. 'After a restart' is decided by C10");
+    r.assume("a fresh Engine per pass; ingress ids of committed envelopes are read from the tick receipt's scope nodes (every alphabet intent matches exactly one cmd/verif rule)");
+
+    if let Some(path) = r.replay.clone() {
+        replay(&r, &path);
+        r.finish();
     }
-    println!("fresh_engine {:?}", t.elapsed() / n);
-    let mut eng = fresh_engine(SchedulerKind::Radix, 1);
-    let t = Instant::now();
-    for _ in 0..n {
-        let mut c = rt.clone();
-        let r = c.super_tick_with(&mut eng).unwrap();
-        assert_eq!(r.len(), 1);
+
+    identity_phase(&r);
+    inbox_phase(&r);
+
+    let memo: Memo = (0..64).map(|_| Mutex::new(HashMap::new())).collect();
+    let cfgs = configs(&r);
+    let max_x = r.pick(3, 5);
+    let mut per_cfg = Vec::new();
+    let ncfg = cfgs.len();
+    for (ci, cfg) in cfgs.into_iter().enumerate() {
+        let keys: Vec<WriterHeadKey> = cfg.heads.iter().map(|(w, h, _)| head_key(*w, *h)).collect();
+        let cx = Ctx {
+            routes: route_table(cfg.worldlines, &keys),
+            sched: SchedulerKind::Radix,
+            cfg,
+        };
+        // reduced alphabet: first occurrence in the BFS form, the retry in the other form
+        let f1 = |i: u8| cx.cfg.f1(i);
+        let mut xs = multisets(
+            &|i| {
+                vec![
+                    vec![Sym { intent: i, form: f1(i) }],
+                    vec![
+                        Sym { intent: i, form: f1(i) },
+                        Sym { intent: i, form: 1 - f1(i) },
+                    ],
+                ]
+            },
+            max_x,
+        );
+        if r.thorough() {
+            // full form alphabet for small multisets
+            let full = multisets(
+                &|i| {
+                    let (p, e) = (Sym { intent: i, form: 0 }, Sym { intent: i, form: 1 });
+                    vec![vec![p], vec![e], vec![p, p], vec![p, e], vec![e, e]]
+                },
+                3,
+            );
+            for m in full {
+                if !xs.contains(&m) {
+                    xs.push(m);
+                }
+            }
+        }
+        // fair share of the wall budget per configuration
+        let frac = 0.25 + 0.65 * ((ci + 1) as f64 / ncfg as f64);
+        let res = explore(&r, &cx, &xs, &memo, frac);
+        r.add_states(res.states);
+        r.add_transitions(res.transitions);
+        r.add_traces(res.transitions);
+        if ci < 4 {
+            r.sample(json!({"phase": "runtime", "config": cx.cfg.to_json(), "multisets": xs.len(),
+                "example_multiset": xs.last().map(|x| x.iter().map(|s| sym_name(*s)).collect::<Vec<_>>()),
+                "states": res.states, "transitions": res.transitions}));
+        }
+        per_cfg.push(json!({"config": cx.cfg.name, "depth_completed": res.max_depth, "depth": cx.cfg.depth,
+            "states": res.states, "transitions": res.transitions, "multisets_per_state": xs.len(), "capped": res.capped}));
+        if res.capped {
+            r.cap_hit(&format!(
+                "runtime BFS of configuration {} stopped at depth {} of {}",
+                cx.cfg.name, res.max_depth, cx.cfg.depth
+            ));
+        }
     }
-    println!("tick on reused engine {:?}", t.elapsed() / n);
-    let t = Instant::now();
-    for _ in 0..n {
-        let _ = format!("{:?}", eng.state());
-    }
-    println!("engine state fp {:?}", t.elapsed() / n);
-    let t = Instant::now();
-    for _ in 0..n {
-        let mut c = rt.clone();
-        let _ = c.runtime.ingest(e1.clone());
-    }
-    println!("clone+dup ingest {:?}", t.elapsed() / n);
-    let t = Instant::now();
-    for _ in 0..n {
-        let f = rt.fingerprint();
-        let _ = blake3::hash(&f);
-    }
-    println!("fp+hash {:?}", t.elapsed() / n);
+    r.note("runtime_bfs", json!(per_cfg));
+    r.note("multiset_size_bound", json!(max_x));
+
+    // vacuity guards
+    let c = |k: &str| r.counter_value(k);
+    r.guard("duplicates_refused_while_pending", c("duplicate_refused_while_pending") > 0);
+    r.guard("duplicates_refused_after_commit", c("duplicate_refused_after_commit") > 0);
+    r.guard(
+        "duplicates_refused_after_rollback",
+        c("duplicate_refused_while_pending_after_rollback") > 0,
+    );
+    r.guard(
+        "duplicates_refused_while_left_pending_by_budget",
+        c("duplicate_refused_while_left_pending_by_budget") > 0,
+    );
+    r.guard("budget_left_pending", c("budget_left_part_of_the_batch_pending") > 0);
+    r.guard("rollbacks_seen", c("rolled_back_passes") > 0);
+    r.guard(
+        "rollbacks_after_an_earlier_head_committed",
+        c("rolled_back_passes_after_earlier_head_committed") > 0,
+    );
+    r.guard("commit_after_rollback_seen", c("commit_after_rollback") > 0);
+    r.guard("kind_filter_rejections_seen", c("rejected_by_kind_filter") > 0);
+    r.guard(
+        "permutations_with_2plus_orders_compared",
+        c("multisets_with_2plus_orders_and_2plus_new_submissions") > 0,
+    );
+    r.guard("committing_passes_seen", c("committing_passes") > 0);
+    r.finish();
 }
+
+/// Replay: re-run the recorded path of a configuration, then the oracle in the end state.
+fn replay(r: &Report, path: &std::path::Path) {
+    let v: Value = std::fs::read_to_string(path)
+        .ok()
+        .and_then(|s| serde_json::from_str(&s).ok())
+        .unwrap_or(Value::Null);
+    let case = v
+        .get("case")
+        .cloned()
+        .or_else(|| v.get("detail").and_then(|d| d.get("case").cloned()))
+        .unwrap_or(Value::Null);
+    let name = case.get("config").and_then(|c| c.as_str()).unwrap_or("");
+    let mut all = Vec::new();
+    for focus in [0u8, 1u8] {
+        for p in POLICIES {
+            for o in POLICIES {
+                all.push(single_wl(focus, p, o, 0));
+            }
+        }
+    }
+    for p1 in POLICIES {
+        for p2 in POLICIES {
+            all.push(two_wl(p1, p2, 0));
+        }
+    }
+    let Some(cfg) = all.into_iter().find(|c| c.name == name) else {
+        r.machinery_error("replay: unknown configuration name");
+        return;
+    };
+    let keys: Vec<WriterHeadKey> = cfg.heads.iter().map(|(w, h, _)| head_key(*w, *h)).collect();
+    let cx = Ctx {
+        routes: route_table(cfg.worldlines, &keys),
+        sched: SchedulerKind::Radix,
+        cfg,
+    };
+    let parse = |s: &str| -> Option<Op> {
+        if s == "pass" {
+            return Some(Op::Tick);
+        }
+        let (a, b) = s.split_once('/')?;
+        let intent = if a == "poison" {
+            4
+        } else {
+            INTENT_NAMES.iter().position(|n| *n == a)? as u8
+        };
+        Some(Op::Ingest(Sym {
+            intent,
+            form: if b == "exact" { 1 } else { 0 },
+        }))
+    };
+    let mut w = build_world(&cx.cfg);
+    let mut out = Out::default();
+    let mut names = Vec::new();
+    for s in case
+        .get("path")
+        .and_then(|p| p.as_array())
+        .cloned()
+        .unwrap_or_default()
+    {
+        if let Some(op) = s.as_str().and_then(parse) {
+            match op {
+                Op::Ingest(s) => {
+                    let d = step_ingest(&cx, &mut w, s, true, &mut out);
+                    println!("replay: {} -> {d:?}", sym_name(s));
+                }
+                Op::Tick => {
+                    let o = step_tick(&cx, &mut w, &mut out);
+                    println!("replay: pass -> {}", o.label);
+                }
+            }
+            names.push(op_name(&op));
+        }
+    }
+    let memo: Memo = (0..4).map(|_| Mutex::new(HashMap::new())).collect();
+    let f1 = |i: u8| cx.cfg.f1(i);
+    let xs = multisets(
+        &|i| {
+            vec![
+                vec![Sym { intent: i, form: f1(i) }],
+                vec![
+                    Sym { intent: i, form: f1(i) },
+                    Sym { intent: i, form: 1 - f1(i) },
+                ],
+            ]
+        },
+        3,
+    );
+    oracle(&cx, &w, &xs, &memo, &names, &mut out);
+    flush(r, out);
+    r.add_states(1);
+    r.add_transitions(1);
+    r.add_traces(1);
+    r.nontrivial(b"replay-a");
+    r.nontrivial(b"replay-b");
+    r.sample(json!({"replay": name}));
+}
+
+#[allow(dead_code)]
+fn _unused(_: IngressPayload) {}
